@@ -50,8 +50,8 @@ ASSUMPTIONS = [
     "regex subset of the ignore pattern: alternation of literals with `.`, escaped characters, trailing `$`; anything else "
     "in conf/pygopherd.conf is a machinery failure; file names contain no newline",
     "DotRuleAll = TRUE: dot-files are never visible whatever the handler (literal reading); metadata hiding (.cap, link "
-    "blocks with Type=X) is UMN semantics; a regular file `gophermap` (Bucktooth takes the directory over) and two Type=X "
-    "blocks for one entry (ValueError, C03/C08) are excluded from the directories and named in MC_C07",
+    "blocks with Type=X) is UMN semantics; a regular file `gophermap` under the default list (Bucktooth takes the directory "
+    "over: not a listing of the directory handlers) is excluded from the directories and named in MC_C07",
 ]
 
 _DW = None
